@@ -3,6 +3,8 @@ CONSTANTS
   MaxAdds = 2
   Ticks = {1000, 2000, 3000}
   MaxLen = 2
+  MaxLenI = 2
+  MaxSets = 1
   Tols = {10}
   Kinds = {"float", "text"}
   Assocs = {"V", "C"}
